@@ -276,19 +276,19 @@ def rows(g, start=None, stop=None, max_paths=4000, want_calls=None, max_visits=1
                 if st["k"] == "assign" and "p" in st["place"] and not n.body.stmt_noise(st):
                     pl = pr.place(n.frame, st["place"], i, si)
                     if ir.peel(pl)[0] in ('field', 'index'):
-                        row.writes.append((ir.peel(pl), pr.rvalue(n.frame, st["rv"], i, si), n, st))
+                        row.writes.append((ir.peel(pl), ir.simplify(pr.rvalue(n.frame, st["rv"], i, si)), n, st))
             t = n.term
             if t["k"] == "switch" and not n.noise() and not last:
-                e = pr.operand(n.frame, t["discr"], i, -1)
+                e = ir.simplify(pr.operand(n.frame, t["discr"], i, -1))
                 row.conds.append((e, labs[i], n))
             elif t["k"] == "call" and not n.noise():
                 f = t["func"]
                 name = norm(f["res"]["path"]) if f.get("res") else (norm(f["path"]) if "path" in f else "indirect")
                 if want_calls is None or want_calls(name):
-                    args = tuple(pr.operand(n.frame, a, i, -1) for a in t["args"])
+                    args = tuple(ir.simplify(pr.operand(n.frame, a, i, -1)) for a in t["args"])
                     row.calls.append((name, args, n))
             elif t["k"] == "return" and last and n.frame is g.root:
-                row.ret = pr.local(n.frame, 0, i, -1)
+                row.ret = ir.simplify(pr.local(n.frame, 0, i, -1))
         # a pure condition evaluated twice on one path cannot have two different outcomes
         seen = {}
         feasible = True
